@@ -97,7 +97,7 @@ for g in LAZY_GROUPS:
     seqs = [list(s) for L in (1, 2) for s in itertools.product(P, repeat=L)]
     tri = [list(s) for s in itertools.product(P, repeat=3)]
     rng.shuffle(tri)
-    seqs += tri if not quick else tri[:60]
+    seqs += tri if not quick else tri[:12]
     rng.shuffle(seqs)
     per_group[g] = seqs
 for i in range(max(len(v) for v in per_group.values())):
@@ -105,7 +105,7 @@ for i in range(max(len(v) for v in per_group.values())):
 
 # (2) the nine init(T) in a random order relative to the public touches, partial base (mass/density are
 #     two of the nine), then assignments and mutations
-n_orders = 40 if quick else 800
+n_orders = 30 if quick else 800
 for _ in range(n_orders):
     T = rng.choice(PRIV)
     keys = list(KEYS)
@@ -162,7 +162,7 @@ for T in PRIV:
         for a in ("E1", "I11", "E0", "XE1", "I01"):
             ALPHA += [["set", T, a, n], ["mut", T, a, n], ["mut", T, a, n]]
 ALPHA += [["import", "fasta"]] * 4
-nrand, rlen = (80, 10) if quick else (2000, 30)
+nrand, rlen = (60, 10) if quick else (2000, 30)
 if len(sys.argv) > 3:
     nrand = int(sys.argv[3])
 for _ in range(nrand):
@@ -185,6 +185,7 @@ if len(sys.argv) > 4:
 
 can = canonical()
 results = run_children(histories)
+t_run = time.time() - t0
 
 
 def violations(h, oc):
@@ -254,7 +255,7 @@ def culprit_set(h, i, oc):
         elif x[0] == "init":
             out.add(("init", rel, x[1], not touched_pub, oc[j] == "OOk"))
         elif x[0] == "set" and oc[j] == "OOk":
-            out.add(("set", rel, x[2] + "." + x[3], not touched_pub, True))
+            out.add(("set", rel, "", not touched_pub, True))
         elif x[0] == "mut" and oc[j] == "OOk":
             out.add(("mut", rel, x[2] + "." + x[3], not touched_pub, True))
     return frozenset(out)
@@ -307,7 +308,15 @@ for key, (prefix, oc_last) in todo:
     # already explained by a minimal failing history found before (same group, same observed side, same outcome)?
     if any(k2[:3] == key[:3] and c2 <= cul for k2, c2 in explained):
         continue
-    if processed >= (30 if quick else 300):
+    if len(cul) == 1:
+        # one culprit only: the mechanism is determined by it; skip if already reported for another group
+        (kind, rel, what_, early, ok), X_priv = next(iter(cul)), key[1]
+        guess = ("C10:private-assignment-while-pending" if kind == "set" else
+                 None if kind == "mut" else
+                 "C10:public-changed-by-private-init:%s" % modname(what_) if rel == "other" and not X_priv else None)
+        if guess in seen_sig:
+            continue
+    if processed >= (16 if quick else 300):
         break
     processed += 1
 
@@ -340,4 +349,4 @@ print(json.dumps(dict(
     stats=dict(histories=len(histories), events=sum(len(h) for h in histories),
                kinds={k: kinds.count(k) for k in sorted(set(kinds))}, distinct=len(set(cases)),
                alphabet=len(set(map(tuple, ALPHA))), harness_s=round(time.time() - t0, 1),
-               buckets=len(buckets), minimised=processed, cover_mismatch=can["cover_mismatch"]))))
+               buckets=len(buckets), minimised=processed, run_s=round(t_run, 1), cover_mismatch=can["cover_mismatch"]))))
